@@ -3,9 +3,11 @@ import VivModel.Model.Artifact
 /-! Line-protocol driver for the artifact model (C19).
 
 ```
-data <id> json|table|unser|zerorow|badframe [<qcols> <rows> <cols> <isEmpty>]   -- declare a value (table: what filters see)
+data <id> json|table|unser|zerorow|badframe [<qcols> <rows> <cols> <isEmpty> <isSeries>]   -- declare a value (table: what filters see)
 op write k=<key> <id|none> | op load k=<key> | op remove k=<key> | op replace k=<key> <id|none> | op clear
 op reopen <terms>      -- the acting artifact becomes Artifact(path, filter_terms=terms)
+op switch <terms>      -- two live artifacts on one file: the acting one is parked and the parked one (or, the first
+                       -- time, a new Artifact(path, filter_terms=terms)) acts
 obs self|fresh         -- keys, hdf.get_keys, bare groups, a second UNFILTERED Artifact on the path and what every
                        -- reported key loads through it; `self`: also what every key loads through the acting artifact
 fload k=<key> <terms>  -- Artifact(path, filter_terms=terms).load(key); terms = `;`-separated RPN token lists
@@ -15,6 +17,7 @@ open Viv Viv.Proto Viv.Artifact
 
 structure St where
   fa     : FArt := {}
+  parked : Option FArt := none
   datas  : List (Nat × Data) := []
   tables : List (Nat × Table) := []
 
@@ -39,14 +42,17 @@ def showView (tables : List (Nat × Table)) (terms : List Term) : Node → Strin
     | none => "unknown-table"
     | some (_, t) =>
       match viewOf t terms with
-      | none => "no-view"
+      | none => "err"
       | some v => s!"tbl:{d}:r{plus (v.rows.map (fun e => toString e.1))}:c{plus v.cols}"
   | n => showNode n
 
 def showOut (s : St) : Out → String
   | .ok => "ok"
   | .rejected => "rejected"
-  | .data n => "data " ++ showView s.tables s.fa.terms n
+  | .data n =>
+    -- a view that cannot be produced (`loadRaises`): `hdf.load` raises inside `Artifact.load`
+    let v := showView s.tables s.fa.terms n
+    if v = "err" then "rejected" else "data " ++ v
 
 def setArt (s : St) (a : Art) : St := { s with fa := { s.fa with art := a } }
 
@@ -103,12 +109,13 @@ def doOp (s : St) (o : Op) : St × String :=
   ({ s with fa := fa }, showOut s out)
 
 def step (s : St) : List String → St × String
-  | ["data", id, "table", qc, rows, cols, emp] =>
-    match id.toNat?, intLists rows, bool? emp with
-    | some id, some rows, some emp =>
+  | ["data", id, "table", qc, rows, cols, emp, ser] =>
+    match id.toNat?, intLists rows, bool? emp, bool? ser with
+    | some id, some rows, some emp, some ser =>
       ({ s with datas := s.datas ++ [(id, ⟨.table, id⟩)],
-                tables := s.tables ++ [(id, { qcols := strList qc, rows := rows, cols := strList cols, isEmpty := emp })] }, "ok")
-    | _, _, _ => (s, "bad-op")
+                tables := s.tables ++ [(id, { qcols := strList qc, rows := rows, cols := strList cols, isEmpty := emp,
+                                              isSeries := ser })] }, "ok")
+    | _, _, _, _ => (s, "bad-op")
   | ["data", id, kind] =>
     match id.toNat?, kind? kind with
     | some id, some k => if k == .table then (s, "bad-op") else ({ s with datas := s.datas ++ [(id, ⟨k, id⟩)] }, "ok")
@@ -134,18 +141,32 @@ def step (s : St) : List String → St × String
     match parseTerms terms with
     | none => (s, "bad-op")
     | some terms => let (fa, o) := s.fa.step (.reopenWith terms); ({ s with fa := fa }, showOut s o)
+  | ["op", "switch", terms] =>
+    match parseTerms terms with
+    | none => (s, "bad-op")
+    | some terms =>
+      match s.parked with
+      | some p => ({ s with fa := p.onFile s.fa.art, parked := some s.fa }, "ok")
+      | none =>
+        let (fa, o) := s.fa.step (.reopenWith terms)
+        match o with
+        | .ok => ({ s with fa := fa, parked := some s.fa }, "ok")
+        | _ => (s, "rejected")
   | ["obs", mode] =>
     if mode ≠ "self" ∧ mode ≠ "fresh" then (s, "bad-op") else
     let a := s.fa.art
     let keys := showKeys a.keys
     let file := showKeys (fileKeys a) ++ " groups=" ++ showKeys a.groups
     let user := a.keys.filter (· != ksKey)
-    -- a second, unfiltered artifact on the path: its keys and what every reported key loads through it
+    -- a second, unfiltered artifact on the path: its keys and what every key (reported by either) loads through it
     let fresh := openArtifact a
+    let both := user ++ (match fresh with
+      | some f => f.keys.filter (fun k => k != ksKey && !a.keys.contains k)
+      | none => [])
     let freshS := match fresh with | some f => showKeys f.keys | none => "err"
     let loads := match fresh with
-      | some f => (obsLoads showNode f user).2
-      | none => user.map (fun k => showKey k ++ "=nofresh")
+      | some f => (obsLoads showNode f both).2
+      | none => both.map (fun k => showKey k ++ "=nofresh")
     let a1 := (Artifact.step a .probe).1
     -- `self`: the same keys through the acting artifact (its filter terms, its cache)
     let (a2, selfS) :=
@@ -169,7 +190,9 @@ def step (s : St) : List String → St × String
           | (_, .data (.tbl d)) =>
             match s.tables.find? (·.1 == d) with
             | none => (s1, "bad-op")
-            | some _ => (s1, showView s.tables terms (.tbl d))
+            | some _ =>
+              let v := showView s.tables terms (.tbl d)
+              (s1, if v = "err" then "rejected" else v)
           | (_, .data n) => (s1, showNode n)
           | (_, _) => (s1, "rejected")
     | _, _ => (s, "bad-op")
